@@ -218,6 +218,21 @@ let dp (lines : string list) =
                      | Ok ix -> m_execute ix q | Err -> Err | Panic -> Panic | Hang -> Hang) in
             pr_result "HQ" qid r;
             go rest
+          | "HREUSE" ->
+            let qid = next c in let ds = next c in let w = writer_of (next c) in
+            let pre = (next c = "preload") in
+            let e1 = next_expr c in
+            if next c <> "THEN" then failwith "expected THEN";
+            let e2 = next_expr c in
+            if next c <> "GB" then failwith "expected GB";
+            let m = next_int c in
+            let gb = List.init m (fun _ -> next_str c) in
+            List.iter (fun (sfx, e) ->
+              let q = { q_expr = e; q_group_by = gb } in
+              let r = (match get_index ds w pre with
+                       | Ok ix -> m_execute ix q | Err -> Err | Panic -> Panic | Hang -> Hang) in
+              pr_result "HQ" (qid ^ sfx) r) [(".a", e1); (".b", e2)];
+            go rest
           | "QVAL" ->
             let qid = next c in
             let k = next_int c in
